@@ -47,6 +47,8 @@ pub fn alphabet() -> Vec<Req> {
         r("refused-version-after-query", b"GET /e?stale=version HTTP/1.0\r\nHost: h\r\n\r\n".to_vec(), "refused"),
         // no query of its own, but `=` inside the bytes that a stale query slice of a longer predecessor would cover
         r("get-cookie-no-query", b"GET /e HTTP/1.1\r\nHost: h\r\nCookie: z=1\r\n\r\n".to_vec(), "header"),
+        // only application-defined header fields, none of the known names (they live in a table of their own)
+        r("get-only-custom", b"GET /e HTTP/1.1\r\nX-Api-Key: alice-secret\r\nX-Trace: t1\r\n\r\n".to_vec(), "header"),
     ];
     // refused because the head does not fit the buffer: the rest of that head is still on the connection when the refusal is
     // sent (one buffer + a bit / more than two buffers) - it must not be taken for the next request
